@@ -33,6 +33,7 @@ type HExpr struct {
 	Op  string   `json:"op"`
 	Col int      `json:"col,omitempty"`
 	Val int      `json:"val,omitempty"`
+	Ph  int      `json:"ph,omitempty"`
 	E   *HExpr   `json:"e,omitempty"`
 	Es  []*HExpr `json:"es,omitempty"`
 }
@@ -40,6 +41,9 @@ type HExpr struct {
 func (e *HExpr) MarshalJSON() ([]byte, error) {
 	switch e.Op {
 	case "eq":
+		if e.Ph > 0 {
+			return json.Marshal(map[string]any{"op": "eq", "col": e.Col, "val": e.Val, "ph": e.Ph})
+		}
 		return json.Marshal(map[string]any{"op": "eq", "col": e.Col, "val": e.Val})
 	case "not":
 		return json.Marshal(map[string]any{"op": "not", "e": e.E})
@@ -73,10 +77,12 @@ type rpcReply struct {
 }
 
 type rpcLine struct {
-	Tag   string     `json:"tag"`
-	Rows  []vx.Row   `json:"rows"`
-	Batch []rpcQuery `json:"batch"`
-	Reply rpcReply   `json:"reply"`
+	Tag     string     `json:"tag"`
+	Rows    []vx.Row   `json:"rows"`
+	Batch   []rpcQuery `json:"batch"`
+	Replies []rpcReply `json:"replies"`
+	Reply   rpcReply   `json:"-"` // the response variant (or the error when only that is allowed)
+	MayErr  bool       `json:"-"`
 }
 
 // toPB concretises a rank expression; each hole becomes one of the ways a message can be incomplete.
@@ -84,7 +90,7 @@ type rpcLine struct {
 func toPB(d *vx.Dict, e *HExpr, rng *rand.Rand, wire bool, inList bool) *proto.Query_Expression {
 	switch e.Op {
 	case "eq":
-		return &proto.Query_Expression{Value: &proto.Query_Expression_Eq{Eq: &proto.Query_Expression_Equal{Column: d.Col(e.Col), Value: d.Val(e.Val)}}}
+		return &proto.Query_Expression{Value: &proto.Query_Expression_Eq{Eq: &proto.Query_Expression_Equal{Column: d.Col(e.Col), Value: d.Val(e.Val), Placeholder: int32(e.Ph)}}}
 	case "not":
 		return &proto.Query_Expression{Value: &proto.Query_Expression_Not_{Not: &proto.Query_Expression_Not{Expr: toPB(d, e.E, rng, wire, false)}}}
 	case "and":
@@ -264,6 +270,14 @@ func replayRPC(args []string) error {
 		if ln.Tag == "setup" {
 			rows = ln.Rows
 		} else if ln.Tag == "batch" {
+			ln.Reply = ln.Replies[0]
+			for _, r := range ln.Replies {
+				if r.Kind == "response" {
+					ln.Reply = r
+				} else {
+					ln.MayErr = true
+				}
+			}
 			lines = append(lines, ln)
 		}
 		return nil
@@ -302,7 +316,7 @@ func replayRPC(args []string) error {
 			}
 			if p != nil {
 				rep.Mismatch(map[string]any{"kind": "rpc-inprocess-panic", "query": q, "panic": p.Value + " @ " + p.Stack})
-			} else if want == "ok" && ln.Reply.Results[qi].Out.Kind == "res" {
+			} else if want == "ok" && !ln.MayErr && ln.Reply.Results[qi].Out.Kind == "res" {
 				if qerr != nil || !dict.FromResult(res, nil).Equal(ln.Reply.Results[qi].Out.Res) {
 					rep.Mismatch(map[string]any{"kind": "rpc-inprocess-answer", "query": q, "err": fmt.Sprint(qerr)})
 				} else if back := convert.ToResult(convert.ToProtobufResult(res, 7)); !reflect.DeepEqual(back.Groups, res.Groups) && !(len(back.Groups) == 0 && len(res.Groups) == 0) || back.Count != res.Count {
@@ -345,7 +359,11 @@ func replayRPC(args []string) error {
 				req.Queries = append(req.Queries, toPBQuery(dict, q, rng, true))
 			}
 			resp, rerr := srv.query(req)
-			if msg := replyOK(dict, ln.Reply, resp, rerr); msg != "" || !srv.alive() {
+			msg := replyOK(dict, ln.Reply, resp, rerr)
+			if msg != "" && ln.MayErr && rerr != nil {
+				msg = "" // rejecting the batch is allowed too
+			}
+			if msg != "" || !srv.alive() {
 				if !srv.alive() {
 					msg = "server process died: " + tail(srv.stderr.String(), 600)
 				}
@@ -424,6 +442,9 @@ func randHExpr(rng *rand.Rand, depth int) *HExpr {
 		case 1:
 			return &HExpr{Op: "eq", Col: 3, Val: 1} // unknown column
 		}
+		if rng.Intn(6) == 0 {
+			return &HExpr{Op: "eq", Col: 1 + rng.Intn(2), Val: 1 + rng.Intn(3), Ph: 1 + rng.Intn(3)} // unresolved placeholder
+		}
 		return &HExpr{Op: "eq", Col: 1 + rng.Intn(2), Val: 1 + rng.Intn(3)}
 	}
 	switch rng.Intn(4) {
@@ -452,7 +473,11 @@ func fromWire(d *vx.Dict, e *proto.Query_Expression) *HExpr {
 		if val < 0 {
 			val = 98
 		}
-		return &HExpr{Op: "eq", Col: c, Val: val}
+		ph := int(v.Eq.GetPlaceholder())
+		if ph < 0 {
+			ph = 0
+		}
+		return &HExpr{Op: "eq", Col: c, Val: val, Ph: ph}
 	case *proto.Query_Expression_Not_:
 		return &HExpr{Op: "not", E: fromWire(d, v.Not.GetExpr())}
 	case *proto.Query_Expression_And_:
